@@ -175,6 +175,51 @@ let () =
         | ["reopen"] -> do_op OReopen noenv
         | ["dump"; c; ids] -> do_op (ODump (n_of_string c, ids_of_string ids)) noenv
         | "mark" :: _ -> print_endline "mark"
+        | "boot" :: rest ->
+          (* boot listen=SRC:N dir=SRC allow=SRC:ids versions=SRC:K days=SRC:K *)
+          let get k = List.fold_left (fun acc t ->
+              match String.index_opt t '=' with
+              | Some i when String.sub t 0 i = k -> Some (String.sub t (i + 1) (String.length t - i - 1))
+              | _ -> acc) None rest in
+          let split2 v = match String.index_opt v ':' with
+            | Some i -> (String.sub v 0 i, String.sub v (i + 1) (String.length v - i - 1))
+            | None -> (v, "") in
+          let rec range a n = if n <= 0 then [] else n_of_int a :: range (a + 1) (n - 1) in
+          let (lf, le) = (match get "listen" with
+              | Some v -> let (src, n) = split2 v in
+                let n = int_of_string n in
+                (match src with
+                 | "flag" -> ([range 1 n], None)
+                 | "flags" -> (List.map (fun x -> [x]) (range 1 n), None)
+                 | _ -> ([], Some (range 1 n)))
+              | None -> ([], None)) in
+          let (df, de) = (match get "dir" with
+              | Some "flag" -> (Some (n_of_int 1), None) | Some "env" -> (None, Some (n_of_int 1))
+              | Some "both" -> (Some (n_of_int 1), Some (n_of_int 2)) | _ -> (None, None)) in
+          let (af, ae) = (match get "allow" with
+              | Some v -> let (src, ids) = split2 v in
+                let l = if ids = "-" || ids = "" then [] else ids_of_string ids in
+                (match src with
+                 | "flag" -> ([l], None) | "flags" -> (List.map (fun x -> [x]) l, None)
+                 | "env" -> ([], Some l) | _ -> ([], None))
+              | None -> ([], None)) in
+          let (vf, ve) = (match get "versions" with
+              | Some v -> let (src, k) = split2 v in
+                (match src with
+                 | "flag" -> (Some (n_of_string k), None) | "env" -> (None, Some (n_of_string k))
+                 | "both" -> (match String.split_on_char '/' k with [a; b] -> (Some (n_of_string a), Some (n_of_string b)) | _ -> (None, None))
+                 | _ -> (None, None))
+              | None -> (None, None)) in
+          let (yf, ye) = (match get "days" with
+              | Some v -> let (src, k) = split2 v in
+                (match src with "flag" -> (Some (z_of_string k), None) | "env" -> (None, Some (z_of_string k)) | _ -> (None, None))
+              | None -> (None, None)) in
+          (match boot { bi_listen_flag = lf; bi_listen_env = le; bi_dir_flag = df; bi_dir_env = de;
+                        bi_allow_flag = af; bi_allow_env = ae; bi_versions_flag = vf; bi_versions_env = ve;
+                        bi_days_flag = yf; bi_days_env = ye } with
+           | Some a -> st.cfg <- a.sa_cfg; st.allow <- a.sa_allow;
+             Printf.printf "booted up addrs=%d\n" (List.length a.sa_listen)
+           | None -> print_endline "booted FAILED addrs=0")
         | ["fault"; spec] ->
           st.plan <- List.map (fun x ->
               match String.split_on_char ':' x with
